@@ -2186,6 +2186,7 @@ class QuicConnection:
             error_code,
             final_size,
         )
+        was_finished = stream.receiver.is_finished
         try:
             event = stream.receiver.handle_reset(
                 error_code=error_code, final_size=final_size
@@ -2196,7 +2197,7 @@ class QuicConnection:
                 frame_type=frame_type,
                 reason_phrase=str(exc),
             )
-        if event is not None:
+        if event is not None and not was_finished:
             self._events.append(event)
         self._local_max_data.used += newly_received
 
